@@ -116,6 +116,40 @@ write(int fd, const void *buf, size_t n)
 	return syscall(SYS_write, fd, buf, n);
 }
 
+/* writev() under the same regime: the kernel may transfer fewer bytes than the
+ * vectors hold (only the short-write mode; the data written is genuine) */
+#include <sys/uio.h>
+ssize_t
+writev(int fd, const struct iovec *iov, int iovcnt)
+{
+	if (shortwrite_on && fd > 2 && iovcnt > 0) {
+		if (!sw_init) {
+			sw_state = shortwrite_seed * 2654435761u + (unsigned) syscall(SYS_gettid) * 40503u;
+			sw_init = 1;
+		}
+		size_t total = 0;
+		for (int i = 0; i < iovcnt; i++)
+			total += iov[i].iov_len;
+		unsigned r = (unsigned) rand_r(&sw_state);
+		if (total > 1 && r % 4 != 3) {
+			/* keep a prefix of the vectors: 1..total-1 bytes */
+			size_t keep = 1 + (r >> 4) % (total - 1);
+			struct iovec tmp[16];
+			int n = 0;
+			for (int i = 0; i < iovcnt && i < 16 && keep > 0; i++) {
+				tmp[n] = iov[i];
+				if (tmp[n].iov_len > keep)
+					tmp[n].iov_len = keep;
+				keep -= tmp[n].iov_len;
+				n++;
+			}
+			sw_count++;
+			return syscall(SYS_writev, fd, tmp, n);
+		}
+	}
+	return syscall(SYS_writev, fd, iov, iovcnt);
+}
+
 #define MAXSEC 64
 
 struct section {
